@@ -621,8 +621,8 @@ pub fn main() {
     run.assume("map keys are strings (the property's precondition); HashMap uses a fixed-key hasher only to keep the run deterministic");
     run.assume("attribute-driven representations (tag/content/untagged/flatten) are inside the model only when serde_json::Value round-trips the same value");
     run.set_max_samples(12);
-    let total = run.scale(48_000, 2_400_000);
-    run.set_floors(run.scale(40_000, 2_000_000), run.scale(20_000, 1_000_000));
+    let total = run.scale(48_000, 9_600_000);
+    run.set_floors(run.scale(40_000, 8_000_000), run.scale(20_000, 4_000_000));
     for c in ["roundtrip_ok", "tree_depth_3", "tree_depth_4plus", "explicitly_unsupported_error"] {
         run.require_counter(c);
     }
